@@ -72,6 +72,8 @@ def gen_parts(rng, ctxname, ids, off=False):
                 src = exprs.gen_expr(rng, 0, avoid='')
                 if rng.random() < .15:
                     src = rng.choice(['o', 'h', 'nn', 'by', 'z', 'e', 'ss'])
+                elif rng.random() < .12:
+                    src = 'tick()'      # the same text several times in one region / document: one evaluation per occurrence
             parts.append(['expr', src, None, rid])
     if rng.random() < .12 and ctxname != 'cdata':
         # a string: expression with braces and interpolations of its own, written where no later '}' follows in the region
@@ -184,6 +186,7 @@ class Expect:
     def __init__(self, env, recvals):
         self.env, self.recvals = env, recvals
         self.log = []
+        env['tick'].reset()
 
     def value(self, src, rid):
         if rid is not None:
@@ -427,6 +430,7 @@ def render_real(src, env, comments_on, data_attributes=False, implicit_attrs=Fal
         # the attributes are offered to the (library's own, i.e. identity) translation function: same rendering
         cfg['implicit_i18n_attributes'] = {'a', 'b'}
     log = []
+    env['tick'].reset()
 
     def f(i):
         log.append(i)
